@@ -1,5 +1,7 @@
 import Unsized.AccessLemmasCanon
 import Unsized.AccessLemmasFrame
+import Unsized.AccessStoreFrame
+import Unsized.AccessStoreReplay
 import Unsized.PtrLemmasSwap
 import Unsized.PtrLemmasFresh
 import Unsized.AccessLemmasFail
@@ -113,6 +115,17 @@ example : ((applyOpT exShape [.field 0, .elem 0] (.remove 0) exMem).2.filter Ev.
 example : evsOk (exMem.orig + maxIncrease) exMem.bytes.length
     (applyOpT exShape [.field 0, .elem 0] (.remove 0) exMem).2 = true := by decide
 
+/-- Non-vacuity for an ACCOUNT-backed case (`impl UnsizedTypeDataAccess for AccountInfo`, harness cases
+`acct-*` / `layout=account`; same op lines and limit): an empty `RemainingBytes` account grown to exactly
+`orig + 10240`, one more byte refused by `AccountInfo::resize_unchecked` (the refused realloc is the only
+event), then the same wrapper shrinks (`corpus/C03/acct_refused_growth_then_use.replay`). -/
+def acctMem : Mem := ⟨[], 0, 0, []⟩
+example : (applyOpT .rem [] (.setLen 10240) acctMem).2.filter Ev.isRaw = [.realloc 0 10240 true] := by decide
+example : ((applyOpT .rem [] (.setLen 10241) (applyOpT .rem [] (.setLen 10240) acctMem).1.1).2.filter Ev.isRaw)
+    = [.realloc 10240 10241 false] := by decide +kernel
+example : evsOk (acctMem.orig + maxIncrease) 10240
+    (applyOpT .rem [] (.setLen 3) (applyOpT .rem [] (.setLen 10240) acctMem).1.1).2 = true := by decide +kernel
+
 /-- The checker is not trivially true: an access one byte past the data is rejected. -/
 example : evsOk 100 10 [.move 3 2 8] = false := by decide
 example : evsOk 100 10 [.realloc 10 101 true] = false := by decide
@@ -176,6 +189,70 @@ theorem frame_partial (s : Shape) (v : Val) (g : Good s v) (m : Mem) (hb : m.byt
   have hl : m.bytes.length ≤ m.orig + maxIncrease := by
     rw [← hcap, List.length_append]; omega
   exact frame_core _ _ _ _ hcap hl (accesses_in_bounds s v g m hb hl abs op)
+
+/-! ### frame at full strength: raw accesses AND typed stores -/
+
+/-- The store-tracing op (`AccessStore.lean`: every `wr` of the byte machine is a `store` event — length
+prefixes, list headers, offset entries, the header updates of `resize_notification` along the accessor chain,
+initialisers, element / `DerefMut` stores) has the byte machine's own result and exactly the raw events of
+`applyOpT`. -/
+theorem stores_traced_is_machine (s : Shape) (abs : List Step) (op : Op) (m : Mem) :
+    (applyOpS s abs op m).1 = applyOp s abs op m ∧ rawOf (applyOpS s abs op m).2 = (applyOpT s abs op m).2 :=
+  ⟨applyOpS_fst s abs op m, applyOpS_raw s abs op m⟩
+
+/-- **footprint_determines_bytes** (no store is missing, none is invented). For every op on ANY state:
+replaying the complete event list of the store-tracing op on the old bytes — a granted realloc sets the
+length (zero-fill / truncate), `move` is `memmove`, `store off v` writes `v` at `off` — yields exactly the
+bytes the byte machine returns. So `frame` below speaks about everything the machine writes. -/
+theorem footprint_determines_bytes (s : Shape) (abs : List Step) (op : Op) (m : Mem) :
+    replayData m.bytes (applyOpS s abs op m).2 = (applyOp s abs op m).1.bytes := by
+  rw [applyOpS_replays, applyOpS_fst]
+
+/-- **complete_footprint_in_bounds.** Invariant state (canonical bytes of a well-formed value, `Calm`: no
+scheduled refusal, `orig + 10240 < 2^32`, `len ≤ orig + 10240`), any accessor path, any op: EVERY access
+of the op — each realloc, each `memmove`, and each typed store — lies inside `[0, len)` for the data length
+`len` of that moment; the data length afterwards is what the reallocs announce and equals the byte machine's;
+the largest data length during the op is `max len len'`. -/
+theorem complete_footprint_in_bounds (s : Shape) (v : Val) (g : Good s v) (m : Mem) (hb : m.bytes = encode s v)
+    (c : Calm m) (abs : List Step) (op : Op) :
+    let x := applyOpS s abs op m
+    evsOkS (m.orig + maxIncrease) m.bytes.length x.2 = true ∧
+    lenAfter m.bytes.length (rawOf x.2) = x.1.1.bytes.length ∧
+    maxLen m.bytes.length (rawOf x.2) = max m.bytes.length x.1.1.bytes.length ∧
+    x.1.1.bytes.length ≤ m.orig + maxIncrease := by
+  obtain ⟨L, h⟩ := applyOpS_ok s v g m hb c abs op
+  exact ⟨h.ok, by rw [h.lenAfter, h.len], by rw [h.maxl, h.len], by rw [h.len]; exact h.cap⟩
+
+/-- **frame.** Model the allocation as `data ++ slack` (`orig + 10240` bytes). Replaying the COMPLETE write
+footprint of any op (raw accesses and typed stores) on any invariant state leaves every byte of the
+allocation at an index `≥ max len len'` unchanged (`len` / `len'` = data length before / after the op),
+keeps the allocation's size, and ends with data length `len'`. So no step writes the slack beyond the owned
+range, let alone anything outside the allocation. (The stores are not traced by hook H3; their tie to the real
+code is the byte-exact `bytes=` column of C01/C02 — same byte machine — plus the harness's frame bit under
+guard pages.) -/
+theorem frame (s : Shape) (v : Val) (g : Good s v) (m : Mem) (hb : m.bytes = encode s v) (c : Calm m)
+    (abs : List Step) (op : Op) (slack : List Nat)
+    (hcap : (m.bytes ++ slack).length = m.orig + maxIncrease) :
+    let x := applyOpS s abs op m
+    let len' := (applyOp s abs op m).1.bytes.length
+    let after := execEvsS (m.bytes ++ slack, m.bytes.length) x.2
+    after.1.length = m.orig + maxIncrease ∧
+    after.1.drop (max m.bytes.length len') = (m.bytes ++ slack).drop (max m.bytes.length len') ∧
+    after.2 = len' := by
+  obtain ⟨L, h⟩ := applyOpS_ok s v g m hb c abs op
+  have hl : m.bytes.length ≤ m.orig + maxIncrease := c.fitsNow
+  obtain ⟨f1, f2, f3⟩ := frame_coreS _ _ _ _ hcap hl h.ok
+  have hlen : (applyOp s abs op m).1.bytes.length = L := by rw [← applyOpS_fst]; exact h.len
+  simp only [hlen]
+  exact ⟨f1, by rw [← h.maxl]; exact f2, by rw [f3, h.lenAfter]⟩
+
+/-- Non-vacuity: the depth-3 example with its stores — the table shift, the tail move, the shrink, then the
+list's own header rewrites and the `unsized_size` / offset updates of the two enclosing lists. -/
+example : (applyOpS exShape [.field 0, .elem 0] (.remove 0) exMem).2.length = 11 := by decide +kernel
+example : evsOkS (exMem.orig + maxIncrease) exMem.bytes.length
+    (applyOpS exShape [.field 0, .elem 0] (.remove 0) exMem).2 = true := by decide +kernel
+/-- … and the checker rejects a store that reaches one byte past the data. -/
+example : evsOkS 100 10 [.store 7 [1, 2, 3, 4]] = false := by decide
 
 /-- With at most one granted realloc the largest data length is `max len len'`. -/
 theorem maxLen_single (len new old : Nat) (pre post : List Ev)
